@@ -8,6 +8,8 @@ import (
 	"fmt"
 	"os"
 	"path/filepath"
+	"regexp"
+	"strconv"
 	"strings"
 
 	"verif/engine/golit"
@@ -243,12 +245,16 @@ func DedupeMsgs(msgs []string) []string {
 
 // CmpOpts selects what Compare looks at.
 type CmpOpts struct {
-	SkipLog            bool
-	SkipErrs           bool
-	SkipVal            bool
-	EventKey           func(e rtapi.Event) string // nil: all fields
-	SkipNoMatch        bool                       // ignore "no match found" errors on both sides (C12 covers them)
-	MaxExpr            uint64                     // budget the implementation ran with
+	SkipLog  bool
+	SkipErrs bool
+	SkipVal  bool
+	EventKey func(e rtapi.Event) string // nil: all fields
+	// LooseEOFCol ignores the column of positions at offset InputLen (only
+	// while testing whether a disagreement is the known finding D9).
+	LooseEOFCol        bool
+	InputLen           int
+	SkipNoMatch        bool   // ignore "no match found" errors on both sides (C12 covers them)
+	MaxExpr            uint64 // budget the implementation ran with
 	IgnoreEncodingErrs bool
 }
 
@@ -322,6 +328,14 @@ func Compare(ref *peg.Result, obs *rtapi.Obs, pt *peg.PosTable, filename string,
 			got = append(got, e.Msg)
 			gotSeq = append(gotSeq, e.InnerSeq)
 		}
+		if co.LooseEOFCol {
+			for i := range want {
+				want[i] = looseEOF(want[i], co.InputLen)
+			}
+			for i := range got {
+				got[i] = looseEOF(got[i], co.InputLen)
+			}
+		}
 		if strings.Join(want, "\n") != strings.Join(got, "\n") {
 			diffs = append(diffs, fmt.Sprintf("errors: want %q got %q", want, got))
 		} else {
@@ -331,8 +345,8 @@ func Compare(ref *peg.Result, obs *rtapi.Obs, pt *peg.PosTable, filename string,
 				}
 			}
 		}
-		if !co.SkipNoMatch && (len(want) == 0) != obs.ErrNil {
-			diffs = append(diffs, fmt.Sprintf("err nil-ness: want %d errors, ErrNil=%v", len(want), obs.ErrNil))
+		if !co.SkipNoMatch && (len(ref.Errs) == 0) != obs.ErrNil {
+			diffs = append(diffs, fmt.Sprintf("err nil-ness: want %d errors, ErrNil=%v", len(ref.Errs), obs.ErrNil))
 		}
 		if !obs.TypeOK {
 			diffs = append(diffs, "error is not an errList of *parserError")
@@ -367,4 +381,16 @@ func CompareLogs(want, got []rtapi.Event, key func(rtapi.Event) string) string {
 		return fmt.Sprintf("block events: want %d got %d", len(want), len(got))
 	}
 	return ""
+}
+
+var posRe = regexp.MustCompile(`(\d+):(\d+) \((\d+)\)`)
+
+func looseEOF(msg string, n int) string {
+	return posRe.ReplaceAllStringFunc(msg, func(m string) string {
+		sm := posRe.FindStringSubmatch(m)
+		if sm[3] == strconv.Itoa(n) {
+			return sm[1] + ":* (" + sm[3] + ")"
+		}
+		return m
+	})
 }
